@@ -140,8 +140,9 @@ func opSupports(fam, op string, d DT) bool {
 
 // built operand plus snapshot
 type opndB struct {
-	arr Arr
-	b   *Built
+	arr  Arr
+	b    *Built
+	mask []bool // the mask the operand was built with (nil: none)
 }
 
 func buildOpnd(o *Opnd, d DT) (*opndB, string) {
@@ -150,7 +151,7 @@ func buildOpnd(o *Opnd, d DT) (*opndB, string) {
 	if err != nil {
 		return nil, inconclusive
 	}
-	return &opndB{arr: a, b: b}, ""
+	return &opndB{arr: a, b: b, mask: o.Mask}, ""
 }
 
 // unchanged verifies that an operand (and its root's storage) is as built.
@@ -161,6 +162,17 @@ func (o *opndB) unchanged(name string) string {
 	if !o.b.Detached {
 		if diff := o.b.FrameDiff(o.b.RootE); diff != "" {
 			return name + "'s storage was modified: " + diff
+		}
+	}
+	// the mask is part of the operand
+	if o.mask != nil && len(o.arr.Shape) > 0 {
+		if !o.b.T.IsMasked() {
+			return name + " lost its mask"
+		}
+		for k, cc := range coordsOf(o.arr.Shape) {
+			if mb, err := o.b.T.MaskAt(cc...); err != nil || mb != o.mask[k] {
+				return name + fmt.Sprintf("'s mask bit at %v is %v (err %v), it was %v", cc, mb, err, o.mask[k])
+			}
 		}
 	}
 	return ""
